@@ -263,6 +263,39 @@ def long_selfconsistency(ctx):
     ctx.sample(sub, {"series": list(fam), "p": [0.01, 0.99, 0.001, 0.02, 0.98]})
 
 
+def long_series_family():
+    out = {}
+    for n in (50, 120, 200):
+        t = np.arange(n)
+        seasonal = np.round(3000 + 2500 * np.sin(t / 36 * 2 * np.pi) + ((t * 131) % 37 - 18) * 40 + ((t * 7919) % 101 - 50) * 6)
+        smooth = np.round(4000 + 3000 * np.sin(t / 36 * 2 * np.pi))
+        rough = np.round(2000 + ((t * 7919) % 997) * 5.0)
+        kink = seasonal.copy()
+        kink[-2:] += 900
+        for name, y in (("seasonal", seasonal), ("smooth", smooth), ("rough", rough), ("kink_end", kink)):
+            for gname, valid in (("all", np.ones(n, bool)), ("every4", t % 4 != 1), ("outage", ~((t >= n // 3) & (t < n // 3 + 9))), ("lead_gap", t >= 3)):
+                out[f"{name}_{n}_{gname}"] = (np.where(valid, y, -3000.0), valid)
+    return out
+
+
+def long_optimality(ctx):
+    """V-curve optimality, structure and self-consistency on longer series (n = 50..200) with gap layouts."""
+    sub = "long_optimality"
+    nd = -3000.0
+    fam = long_series_family()
+    names = list(fam)
+    for n in (50, 120, 200):
+        sel = [k for k in names if f"_{n}_" in k]
+        Y = np.array([fam[k][0] for k in sel])
+        V = np.array([fam[k][1] for k in sel])
+        for srange in (np.arange(-2, 1.2, 0.2), np.arange(0, 3.2, 0.2), np.arange(-1.0, 4.5, 0.5)):
+            for p_env in (None, 0.9, 0.5):
+                variant = "ws2doptv" if p_env is None else "ws2doptvp"
+                check_batch(variant, Y, V, nd, srange, p_env, ctx)
+        ctx.count(sub, evaluations=len(sel), nontrivial=len(sel))
+    ctx.sample(sub, {"series": names[:6], "lengths": [50, 120, 200]})
+
+
 def run(ctx):
     wc.compile_all()
     letters = wc.letters_for(ctx.seed)
@@ -287,6 +320,7 @@ def run(ctx):
     ctx.note("lc_values", [repr(v) for v in LCS])
     accessor(ctx, letters)
     long_selfconsistency(ctx)
+    long_optimality(ctx)
 
 
 def replay(sub, case, p):
